@@ -151,3 +151,42 @@ def type01_frames(n: int, g1: int, g2: int, g3: int, f0: int, f1: int, f2: int, 
         rest -= frs[k]
         k += 1
     return r.tellLrForFrame(fnum) == (pos[k], rest)
+
+
+def type01_frames_incremental(n: int, g1: int, g2: int, g3: int, f0: int, f1: int, f2: int, f3: int) -> bool:
+    """
+    pre: 1 <= n <= 4
+    pre: 1 <= g1 <= 2 and 1 <= g2 <= 2 and 1 <= g3 <= 2
+    pre: 1 <= f0 <= 2 and 1 <= f1 <= 2 and 1 <= f2 <= 2 and 1 <= f3 <= 2
+    pre: (n >= 2 or (g1 == 1 and f1 == 1)) and (n >= 3 or (g2 == 1 and f2 == 1)) and (n >= 4 or (g3 == 1 and f3 == 1))
+    post: _
+    """
+    # the index is queried while it is being built (after every record): every answer must be that of the records added so far
+    n, f0 = mark.pick(n, 1, 4), mark.pick(f0, 1, 2)
+    g1, f1 = (mark.pick(g1, 1, 2), mark.pick(f1, 1, 2)) if n >= 2 else (1, 1)
+    g2, f2 = (mark.pick(g2, 1, 2), mark.pick(f2, 1, 2)) if n >= 3 else (1, 1)
+    g3, f3 = (mark.pick(g3, 1, 2), mark.pick(f3, 1, 2)) if n >= 4 else (1, 1)
+    with mark.untraced():
+        pos = [100, 100 + g1, 100 + g1 + g2, 100 + g1 + g2 + g3][:n]
+        frs = [f0, f1, f2, f3][:n]
+        r = LisRle.RLEType01(b'FEET')
+        x = 1000
+        mark.hit()
+        for i in range(n):
+            r.add(pos[i], frs[i], x)
+            x -= frs[i] * 5
+            tot = sum(frs[:i + 1])
+            if r.totalFrames() != tot or r.xAxisFirst() != 1000:
+                return False
+            fnum = 0
+            for k in range(i + 1):
+                for o in range(frs[k]):
+                    if r.tellLrForFrame(fnum) != (pos[k], o):
+                        return False
+                    fnum += 1
+            try:
+                r.tellLrForFrame(tot)
+                return False
+            except IndexError:
+                pass
+        return True
